@@ -1182,7 +1182,7 @@ fn damage(rng: &mut Rng, d: &mut Vec<u8>) {
     }
 }
 
-/// damage aimed at the checks of the transformed glyf reader (repaired in 309cc90, 5955e8e, 84a8f8b):
+/// damage aimed at the checks of the transformed glyf reader (repaired in 86608df, 093eba0, aa2eefe):
 /// a bboxStreamSize at or below the length of the bitmap, a first contour of zero points, contour
 /// sizes that reach or cross 65535 points
 fn damage_tglyf(rng: &mut Rng, d: &mut Vec<u8>) {
